@@ -105,11 +105,13 @@ def run_external(smt2_text, budget_s):
     return out
 
 
-def discharge(jobs, budget_s=10.0, nproc=None, portfolio=True):
+def discharge(jobs, budget_s=10.0, nproc=None, portfolio=True, stage1=None):
     """jobs: list of dicts {id, query: [z3 Bool...] (to be checked for unsat), model_terms: {name: term}}.
     Returns dict id -> result dict."""
     nproc = nproc or min(16, os.cpu_count() or 4)
     full_budget = budget_s
+    if stage1 is not None:
+        budget_s = stage1
     if portfolio:
         budget_s = min(budget_s, 3.0)      # first stage is short: what z3 5.1 proves, it proves quickly; the rest goes to the portfolio at the full budget
     pending = list(jobs)
@@ -200,3 +202,37 @@ def discharge(jobs, budget_s=10.0, nproc=None, portfolio=True):
                         if first == "unsat" and res["status"] == "unknown":
                             res.update({"status": "proved", "solver": name, "time_s": dt, "first_solver_reason": res.get("reason")})
     return results
+
+
+def portfolio_texts(open_results, budget_s, nproc=None):
+    """open_results: {id: result dict with 'smt2'}; tries cvc5 first, then z3 4.8.12 / z3 5.1 CLI; updates the dicts in place"""
+    if not open_results:
+        return
+    from concurrent.futures import ThreadPoolExecutor
+    nproc = nproc or min(16, os.cpu_count() or 4)
+
+    def one(args):
+        jid, name, cmd_fn = args
+        t0 = time.time()
+        with tempfile.NamedTemporaryFile("w", suffix=".smt2", delete=False, dir="/dev/shm" if os.path.isdir("/dev/shm") else None) as f:
+            f.write(open_results[jid]["smt2"])
+            path = f.name
+        try:
+            p = subprocess.run(cmd_fn(path), capture_output=True, text=True, timeout=budget_s * 1.5 + 2)
+            first = (p.stdout.strip().splitlines() or [""])[0].strip()
+        except subprocess.TimeoutExpired:
+            first = "timeout"
+        finally:
+            os.unlink(path)
+        return jid, name, first, round(time.time() - t0, 3)
+    stages = [[("cvc5-1.0.3", lambda p: ["/usr/bin/cvc5", "--strings-exp", f"--tlimit={int(budget_s * 1000)}", p])],
+              [("z3-4.8.12", lambda p: ["/usr/bin/z3", f"-T:{int(budget_s)}", p]), ("z3-5.1-cli", lambda p: ["z3-new", f"-T:{int(budget_s)}", p])]]
+    for stage in stages:
+        tasks = [(jid, name, fn) for jid, r in open_results.items() if r["status"] == "unknown" for name, fn in stage]
+        if not tasks:
+            break
+        with ThreadPoolExecutor(max_workers=nproc) as ex:
+            for jid, name, first, dt in ex.map(one, tasks):
+                res = open_results[jid]
+                if first == "unsat" and res["status"] == "unknown":
+                    res.update({"status": "proved", "solver": name, "time_s": dt, "first_solver_reason": res.get("reason")})
